@@ -275,7 +275,32 @@ impl<C: Kind> Run<C> where C::Storage: Default {
         for (h, e) in self.handles.clone().iter().enumerate() {
             if !self.alive[h] && st.get(*e).is_some() { let m = format!("dead handle {:?} reads {:?}", e, st.get(*e)); drop(st); return fail(prop, "C03", m); }
         }
+        // C06: a join over (entities, storage) visits exactly the live entities that have the component, once each, in ascending index
+        // order, with that entity's current handle and value — through the plain iterator, through `lend_join().for_each`, and the
+        // entries() walk agrees on which slots are occupied
+        {
+            let ents = self.world.entities();
+            let mut want: Vec<(u32, i32, u8)> = self.model.iter().filter(|(h, _)| self.alive[**h]).map(|(h, v)| (self.handles[*h].id(), self.handles[*h].gen().id(), *v)).collect();
+            want.sort();
+            let got: Vec<(u32, i32, u8)> = (&ents, &st).join().map(|(e, c)| (e.id(), e.gen().id(), c.val())).collect();
+            if got != want { let m = format!("(&entities, &storage).join() visited {:?}, expected {:?}", got, want); drop(st); drop(ents); return fail(prop, "C06", m); }
+            let mut got2: Vec<(u32, i32, u8)> = Vec::new();
+            (&ents, &st).lend_join().for_each(|(e, c)| got2.push((e.id(), e.gen().id(), c.val())));
+            if got2 != want { let m = format!("(&entities, &storage).lend_join().for_each visited {:?}, expected {:?}", got2, want); drop(st); drop(ents); return fail(prop, "C06", m); }
+            drop(ents);
+        }
         drop(st);
+        {
+            let ents = self.world.entities();
+            let mut wst = self.world.write_storage::<C>();
+            let mut occ: Vec<(u32, bool)> = Vec::new();
+            (&ents, wst.entries()).lend_join().for_each(|(e, entry)| occ.push((e.id(), matches!(entry, specs::storage::StorageEntry::Occupied(_)))));
+            drop(wst);
+            let mut want: Vec<(u32, bool)> = (0..self.handles.len()).filter(|h| self.alive[*h]).map(|h| (self.handles[h].id(), self.model.contains_key(&h))).collect();
+            want.sort();
+            drop(ents);
+            if occ != want { return fail(prop, "C06", format!("entries() walk saw (index, occupied) {:?}, expected {:?}", occ, want)); }
+        }
         // C12: exactly the expected events, in order
         if let Some(r) = self.reader.as_mut() {
             let new = C::drain_events(&self.world, r);
